@@ -40,8 +40,8 @@ CASE_SEEDS = [
 
 # token alphabets for the exhaustive token-sequence stream: (option set, tokens)
 CASE_TOKENS = [
-    ('html', ['<script>', '<SCRIPT>', '</script>', '</SCRIPT>', '</Script>', '<style>', '</style>', '</STYLE>', '<Br>', 'x']),
-    ('ab', ['<a>', '<A>', '</a>', '</A>', '<b>', '</B>', '<ab>', '</aB>', '<b TYPE=a>', 'x']),
+    ('html', ['<script>', '<SCRIPT>', '</script>', '</SCRIPT>', '</Script>', '<style>', '</STYLE>', '<Br>', 'x']),
+    ('ab', ['<a>', '<A>', '</a>', '</A>', '<b>', '</B>', '</aB>', '<b TYPE=a>', 'x']),
 ]
 
 CASE_FRAGS = ['<A>', '</A>', '<B>', '</B>', '<B', '<A ', '<AB>', '</Ab>', '<aB/>', '<SCRIPT>', '</SCRIPT>', '</Script>', '<Script>',
@@ -119,7 +119,7 @@ def sample_positions(rng, s, extra=()):
 
 def scale_documents(rng, quick):
     """[(string, option-set name, label, positions)]; every family is drawn with a size beyond 1000"""
-    sizes = [1100, 1700, 2600] if quick else [1100, 1700, 2600, 6000, 15000]
+    sizes = [1100, 1500, 2100] if quick else [1100, 1500, 2100, 5000]
     out = []
 
     def size():
@@ -135,18 +135,18 @@ def scale_documents(rng, quick):
         out.append((s, on or rng.choice(['html', 'html', 'xml', 'nospecial']), 'scale:' + label, sample_positions(rng, s, extra)))
 
     leaf = lambda: rng.choice(['', 'x', '<br>', '<i/>', '<img src="a">t', '<!-- c -->', '<u>t</u>'])
-    reps = 1 if quick else 3
+    reps = 1 if quick else 2
     for _ in range(reps):
         # nested chain: every element is the first child of its parent
         d, n, a = size(), nm(), at()
-        add(('<%s%s>' % (n, a)) * d + leaf() + ('</%s>' % n) * d, 'nested-chain')
+        add(''.join('<%s%s>' % (n, a if i % 8 == 0 else '') for i in range(d)) + leaf() + ('</%s>' % n) * d, 'nested-chain')
         # the same with two alternating names, text before the child and a sibling after it
         d, n, m = size(), nm(), nm()
         add(''.join('<%s>t' % (n if i % 2 else m) for i in range(d)) + leaf()
             + ''.join('</%s><i/>' % (n if i % 2 else m) for i in reversed(range(d))), 'nested-chain-with-siblings')
         # half-typed: chain cut off (stack of unclosed tags), partly closed, closed in the wrong order
         d, n, a = size(), nm(), at()
-        add(('<%s%s>' % (n, a)) * d + leaf(), 'unclosed-chain')
+        add(''.join('<%s%s>' % (n, a if i % 8 == 0 else '') for i in range(d)) + leaf(), 'unclosed-chain')
         d, n = size(), nm()
         k = rng.randrange(1, d)
         add(('<%s>' % n) * d + leaf() + ('</%s>' % n) * k, 'partly-closed-chain')
@@ -193,18 +193,18 @@ def scale_documents(rng, quick):
 # ------------------------------------------------------------------ scale (CSS)
 def css_scale_sheets(rng, quick):
     """[(label, text)] stylesheets and values with depth / counts / token lengths beyond 1000"""
-    sizes = [1100, 1700, 2600] if quick else [1100, 1700, 2600, 6000, 15000]
+    sizes = [1100, 1500, 2100] if quick else [1100, 1500, 2100, 5000]
     out = []
 
     def size():
         return rng.choice(sizes) + rng.randrange(0, 50)
 
     sel = lambda: rng.choice(['a', '.b', 'ul > li', '&:hover', '@media (min-width: 1px)', 'a:not(.c)'])
-    for _ in range(1 if quick else 3):
+    for _ in range(1 if quick else 2):
         d, s = size(), sel()
         out.append(('nested-rules', (s + '{') * d + 'c:d;' + '}' * d))
         d, s = size(), sel()
-        out.append(('nested-rules-with-declarations', ''.join('%s { p%d: v; ' % (s, i) for i in range(d)) + 'x: y' + ' }' * d))
+        out.append(('nested-rules-with-declarations', ''.join('%s{p%d:v;' % (s, i) for i in range(d)) + 'x: y' + ' }' * d))
         d = size()
         out.append(('unclosed-nesting', (sel() + '{') * d + 'c:d'))
         d = size()
@@ -230,7 +230,7 @@ def css_scale_sheets(rng, quick):
 
 def css_scale_values(rng, quick):
     """values for split_value"""
-    sizes = [1100, 2600] if quick else [1100, 2600, 15000]
+    sizes = [1100, 2100] if quick else [1100, 2100, 5000]
     out = []
     for d in sizes:
         d += rng.randrange(0, 50)
